@@ -5,6 +5,8 @@ import PysamlModel.Props.C20
 #print axioms C20.C20_verify_verdict
 #print axioms C20.C20_accepted_iff_published
 #print axioms C20.C20_never_crashes
+#print axioms C20.C20_churn_last_setup
+#print axioms C20.C20_signature_history_free
 #print axioms C20.C20_spec_signed
 #print axioms C20.C20_spec_verified
 #print axioms C20.C20_model_meets_spec
